@@ -790,3 +790,63 @@ func (t *Term) Size() int {
 }
 
 var _ = bits.Len64
+
+// Rebuild reconstructs t with its arguments replaced (re-running the
+// constructor's folding rules).
+func (c *Ctx) Rebuild(t *Term, args []*Term) *Term {
+	switch t.Op {
+	case ONot:
+		return c.Not(args[0])
+	case OAnd:
+		return c.And(args[0], args[1])
+	case OOr:
+		return c.Or(args[0], args[1])
+	case OIte:
+		return c.Ite(args[0], args[1], args[2])
+	case OEq:
+		return c.Eq(args[0], args[1])
+	case OBvAdd, OBvSub, OBvMul, OBvSDiv, OBvSRem, OBvUDiv, OBvURem, OBvAnd, OBvOr, OBvXor, OBvShl, OBvLshr, OBvAshr:
+		return c.bin(t.Op, args[0], args[1])
+	case OBvNeg:
+		return c.BvNeg(args[0])
+	case OBvNot:
+		return c.BvNot(args[0])
+	case OBvUlt, OBvUle, OBvSlt, OBvSle:
+		return c.cmp(t.Op, args[0], args[1])
+	case OExtract:
+		return c.Extract(args[0], int(t.U>>16), int(t.U&0xffff))
+	case OConcat:
+		return c.Concat(args[0], args[1])
+	case OZext:
+		return c.Zext(args[0], t.Sort.W)
+	case OSext:
+		return c.Sext(args[0], t.Sort.W)
+	case OFpAdd, OFpSub, OFpMul, OFpDiv:
+		return c.fpbin(t.Op, args[0], args[1])
+	case OFpNeg:
+		return c.FpNeg(args[0])
+	case OFpAbs:
+		return c.FpAbs(args[0])
+	case OFpLt, OFpLe, OFpEq:
+		return c.fpcmp(t.Op, args[0], args[1])
+	case OFpIsNaN:
+		return c.FpIsNaN(args[0])
+	case OFpIsInf:
+		return c.FpIsInf(args[0])
+	case OFpRound:
+		return c.FpRound(args[0], int(t.U))
+	case OFpFromSBV:
+		return c.FpFromSBV(args[0])
+	case OFpFromUBV:
+		return c.FpFromUBV(args[0])
+	case OFpToSBV:
+		return c.FpToSBV(args[0], t.Sort.W)
+	case OFpToUBV:
+		return c.FpToUBV(args[0], t.Sort.W)
+	case OFpFromBits:
+		return c.FpFromBits(args[0])
+	case OApply:
+		return c.Apply(t.Name, t.Sort, args...)
+	}
+	return t
+}
